@@ -2,8 +2,15 @@ use crate::orch::Property;
 
 pub mod c04;
 pub mod c05;
+pub mod c07;
 pub mod c08;
+pub mod c09;
+pub mod c10;
+pub mod c11;
+pub mod c12;
+pub mod c16;
 pub mod c17;
+pub mod c18;
 pub mod sweep;
 
 pub fn lookup(id: &str) -> Box<dyn Property> {
@@ -13,8 +20,15 @@ pub fn lookup(id: &str) -> Box<dyn Property> {
         "C03" => Box::new(sweep::Sweep::new(sweep::Which::C03)),
         "C04" => Box::new(c04::C04),
         "C05" => Box::new(c05::C05),
+        "C07" => Box::new(c07::C07),
         "C08" => Box::new(c08::C08),
+        "C09" => Box::new(c09::C09),
+        "C10" => Box::new(c10::C10),
+        "C11" => Box::new(c11::C11),
+        "C12" => Box::new(c12::C12),
+        "C16" => Box::new(c16::C16),
         "C17" => Box::new(c17::C17),
+        "C18" => Box::new(c18::C18),
         _ => panic!("unknown property {id}"),
     }
 }
